@@ -36,12 +36,16 @@ type Party interface {
 	advance()
 	lock()
 	unlock()
+	setStoredEarly()
+	storedEarly() bool
 }
 
 type BaseParty struct {
 	mtx        sync.Mutex
 	rnd        Round
 	FirstRound Round
+	// whether a message was stored while no round was set, i.e. before Start()
+	early bool
 }
 
 func (p *BaseParty) Running() bool {
@@ -113,6 +117,14 @@ func (p *BaseParty) unlock() {
 	p.mtx.Unlock()
 }
 
+func (p *BaseParty) setStoredEarly() {
+	p.early = true
+}
+
+func (p *BaseParty) storedEarly() bool {
+	return p.early
+}
+
 // ----- //
 
 func BaseStart(p Party, task string, prepare ...func(Round) *Error) *Error {
@@ -138,9 +150,28 @@ func BaseStart(p Party, task string, prepare ...func(Round) *Error) *Error {
 	}
 	common.Logger.Infof("party %s: %s round %d starting", p.round().Params().PartyID(), task, 1)
 	defer func() {
-		common.Logger.Debugf("party %s: %s round %d finished", p.round().Params().PartyID(), task, 1)
+		common.Logger.Debugf("party %s: %s round %d finished", p.PartyID(), task, 1)
 	}()
-	return p.round().Start()
+	if err := p.round().Start(); err != nil {
+		return err
+	}
+	// messages that were delivered (and stored) before Start() must be taken into account now:
+	// if no further message arrives, nothing else would ever trigger an update
+	for p.storedEarly() && p.round() != nil {
+		if _, err := p.round().Update(); err != nil {
+			return err
+		}
+		if !p.round().CanProceed() {
+			break
+		}
+		if p.advance(); p.round() != nil {
+			if err := p.round().Start(); err != nil {
+				return err
+			}
+			common.Logger.Infof("party %s: %s round %d started", p.PartyID(), task, p.round().RoundNumber())
+		}
+	}
+	return nil
 }
 
 // an implementation of Update that is shared across the different types of parties (keygen, signing, dynamic groups)
@@ -183,5 +214,6 @@ func BaseUpdate(p Party, msg ParsedMessage, task string) (ok bool, err *Error) {
 		}
 		return r(true, nil)
 	}
+	p.setStoredEarly() // no round yet: Start() will pick the message up
 	return r(true, nil)
 }
